@@ -392,5 +392,24 @@ CHECKS["C06"].update(text=CHECKS["C06"]["text"].replace("Lazy = eager on cut fil
 CHECKS["C01"].update(text=CHECKS["C01"]["text"].replace("Not one theorem: the length-unknown marker on uncut files of several segments, typed DAQmx channels;",
     "read_encode_multi_marker: the last segment may carry the length-unknown marker (any types, any number of chunks). Not one theorem: typed DAQmx channels;"))
 
+CHECKS["C04"].update(text=CHECKS["C04"]["text"].replace("Interleaved and DAQmx windows: arithmetic theorem + correspondence.",
+    "lazy_window_eq_denote_slice_interleaved / lazy_slice_eq_denote_pySlice_interleaved / lazy_index_eq_denote_interleaved (C04Layouts): the same for files mixing contiguous "
+    "and interleaved segments; lazy_window_eq_denote_slice_daqmx (C11Whole): windows of DAQmx scaler data = slices of the scaler values the file encodes."))
+CHECKS["C11"].update(text=CHECKS["C11"]["text"] + " lazy_window_eq_denote_slice_daqmx / invariants_hold_encoded_daqmx (C11Whole): for every well-formed file with DAQmx segments "
+    "the lazy window of every scaler equals the slice of the values the file encodes, and len(channel) is their number; the hypotheses of C11Lazy are derived, not assumed.")
+CHECKS["C12"].update(text="File level (C12File): datetime_property_roundtrip / datetime_channel_roundtrip — for EVERY integer microsecond count the writer accepts (exactly those whose "
+    "seconds fit the struct field; every datetime64[us]) a datetime written as a property or as channel data by any accepted program is read back as a 16-byte TimeStamp that "
+    "decodes (scalar and array conversion) to the same microsecond; raw timestamps bit-exactly; the same after defragment (defragment_keeps_timestamps). " + CHECKS["C12"]["text"])
+CHECKS["C16"].update(text="File level (C16File): names_survive_write_read / no_aliasing — for every accepted writer program the (group, channel) name pairs read back are exactly those "
+    "written, distinct names give distinct objects, and the object found under a name holds exactly the properties and the concatenated data written under that name; names "
+    "are arbitrary byte strings in the model and string_path_bytes proves the byte-level path equals the UTF-8 encoding of the Python path string for all strings. "
+    + CHECKS["C16"]["text"])
+CHECKS["C19"].update(text=CHECKS["C19"]["text"].replace("Exclusions stated in the theorems: string channels (offset tables), interleaved segments are bounded by the union of planned chunks,",
+    "window_io_bound_strings (C19Strings): for encoded files also string channels — every read lies inside the requested channel's bytes (offset table + characters) of a "
+    "planned chunk, other channels are skipped by their declared size; interleaved_read_exact / interleaved_read_minimal: an interleaved read fetches exactly the planned "
+    "rows (other columns of those rows included — the smallest row-aligned range); bytes_fetched_le: bytes fetched <= 4 x touched segments + chunk size x (length / values "
+    "per chunk + 2) per touched segment, independent of the file size. On corrupt string offset tables (arbitrary bytes) only the forward-only bound string_reads_forward "
+    "holds (corrupt_table_escapes). Remaining exclusions:"))
+
 NOTES = ("Properties move from not_applicable to checks as their model, correspondence and theorems are built; a check is claimed at `proof` only when its "
          "headline theorems are registered in lean/obligations.json. See DESIGN.md.")
